@@ -20,6 +20,8 @@ pub mod c15;
 pub mod c16;
 pub mod c17;
 pub mod c18;
+pub mod c19;
+pub mod c20;
 pub mod lzgen;
 pub mod calibrate;
 
@@ -63,6 +65,8 @@ pub fn run(prop: &str, cx: &mut Ctx) -> bool {
         "C16" => c16::run(cx),
         "C17" => c17::run(cx),
         "C18" => c18::run(cx),
+        "C19" => c19::run(cx),
+        "C20" => c20::run(cx),
         _ => return false,
     }
     true
